@@ -112,7 +112,9 @@ Theorem C01_synced_reachable : forall fs ops,
   a_state s <> Decay -> a_state s <> Sustain -> synced s.
 Proof. exact synced_reachable. Qed.
 
-(** in decay/sustain the state is in sync unless the last operation changed the sustain level *)
+(** in decay/sustain: a tick or gate event re-establishes sync; a time change keeps it (from an in-sync
+    state); a sustain change loses it.  So the state is in sync unless the sustain level was changed since
+    the last tick or gate event (see also C01_trace_decay_monotone) *)
 Theorem C01_synced_run_last : forall fs ops o,
   match o with
   | ATick | AGateOn | AGateOff => True
@@ -195,7 +197,7 @@ Theorem C01_trace_fidelity_rel : forall fs ops,
   Rabs (R32 (a_value s) - ideal s) <= 0.005 * span s.
 Proof. exact C01_trace_fidelity_rel. Qed.
 
-(** witness that the absolute term is needed: with a span of one f32 ulp (sustain = 1 - 2^-24) the output cannot follow the curve closer than 11.9% of the span *)
+(** witness that the absolute term is needed: with a span of one f32 ulp (sustain = 1 - 2^-24) in this reachable state the output is at least 10% of the span away from the curve (11.9% computed) *)
 Theorem C01_span_relative_fidelity_fails :
   let s := adsr_run FS1k (tiny_pre ++ [ATick]) in
   a_state s = Decay /\ Inv s /\ synced s /\ span s = / 16777216 /\
